@@ -211,12 +211,18 @@ def run(case, replay=None):
             with Recorder("record") as R:
                 algo.tell(infills=infills)
             g += 1
-            if before is None:
-                continue
+            is_init = before is None
+            if is_init:
+                if c["algo"] in ("ga", "ea-dex"):
+                    continue        # the generic base class does not rank its first population (pymoo's business)
+                before = {"ids": np.zeros(0, dtype=int), "X": np.zeros((0, off["X"].shape[1])), "F": np.zeros((0, off["F"].shape[1])),
+                          "G": np.zeros((0, off["G"].shape[1])), "CV": np.zeros(0), "feas": np.zeros(0, dtype=bool),
+                          "rank": np.zeros(0, dtype=int)}
             if only_g is not None and g != only_g:
                 continue
             after = snapshot(algo.pop, book)
             rec = Record(NAME, dict(c, g=g), {"pop": before, "off": off})
+            rec.cfg["init"] = bool(is_init)
             rec.cfg["constr"] = bool(prob.has_constraints())
             rec.cfg["is_rnc"] = bool(is_rnc)
             rec.out["after"] = after
@@ -237,11 +243,13 @@ def run(case, replay=None):
                     rec.frames.append("stored G of a population member differs from the problem evaluated at its stored X")
             if not bits_equal(x_asked, off["X"]):
                 rec.frames.append("offspring X changed between ask() and tell()")
-            nowb = snapshot(pop_before, book)
+            nowb = snapshot(pop_before, book) if not is_init else before
             for k in ("X", "F", "CV"):
                 if not bits_equal(nowb[k], before[k]):
                     rec.frames.append("a member of the previous population had its %s altered by the generation" % k)
             rec.tags.add("algo:" + c["algo"])
+            if is_init:
+                rec.tags.add("first-generation")
             rec.tags.add("feas:" + ("all" if after["feas"].all() else "none" if not after["feas"].any() else "mixed"))
             if orc.sorts:
                 rec.tags.add("split-front")
@@ -276,6 +284,8 @@ def encode(rec):
     c = rec.cfg
     pop, off = rec.inp["pop"], rec.inp["off"]
     algo = "gde3" if c["algo"].startswith("gde3") else c["algo"]
+    if c.get("init"):
+        algo = "init-" + algo
     t = [NAME, algo, str(c["pop_size"]), "POP"] + _indm(pop) + ["OFF"] + _indm(off)
     if c["algo"] == "de":
         t += ["DE", "1" if c["constr"] else "0"] + proto.fmat(pop["X"]) + proto.fmat(off["X"])
@@ -338,7 +348,7 @@ def _cdom(cva, fa, cvb, fb):
 def oracle_C05(rec):
     if rec.err is not None:
         return ["run raised: " + rec.err]
-    if not rec.cfg["algo"].startswith("gde3"):
+    if not rec.cfg["algo"].startswith("gde3") or rec.cfg.get("init"):
         return []
     pop, off, after = rec.inp["pop"], rec.inp["off"], rec.out["after"]
     n = len(pop["ids"])
@@ -386,7 +396,7 @@ def oracle_C06(rec):
     A = [int(x) for x in after["ids"]]
     bad = []
     # candidates: for GDE3 those that passed the one-to-one comparison (independent recomputation)
-    if rec.cfg["algo"].startswith("gde3"):
+    if rec.cfg["algo"].startswith("gde3") and not rec.cfg.get("init"):
         n = len(pop["ids"])
         cand = []
         for k in range(min(n, len(off["ids"]))):
@@ -505,6 +515,17 @@ def oracle_C02(rec):
         return ["run raised: " + rec.err]
     if rec.cfg["algo"] != "de":
         return []
+    if rec.cfg.get("init"):
+        after = rec.out["after"]
+        keys = [(after["CV"][i], after["F"][i][0]) for i in range(len(after["ids"]))]
+        bad = []
+        if any(keys[k] > keys[k + 1] for k in range(len(keys) - 1)):
+            bad.append("first population is not ordered best-first by (CV, F)")
+        if list(after["rank"]) != list(range(len(keys))):
+            bad.append("rank attributes of the first population are not the positions")
+        if sorted(after["ids"]) != sorted(rec.inp["off"]["ids"]):
+            bad.append("first population is not the sampled population")
+        return bad
     import comp_repl
     pop, off, after = rec.inp["pop"], rec.inp["off"], rec.out["after"]
     n = len(pop["ids"])
